@@ -565,6 +565,15 @@ qlisttbl_data_t *qlisttbl_getmulti(qlisttbl_t *tbl, const char *name, bool newme
         memset((void *)newobj, '\0', sizeof(qlisttbl_data_t));
         newobj->type = 0;  // mark, end of objects
     }
+    if (nomem == false && errno == ENOMEM) {
+        // getnext() couldn't copy an entry, don't hand out a partial result
+        if (objs != NULL) {
+            qlisttbl_freemulti(objs);
+            objs = NULL;
+        }
+        numfound = 0;
+        nomem = true;
+    }
     qlisttbl_unlock(tbl);
 
     // return found counter
@@ -776,6 +785,7 @@ bool qlisttbl_getnext(qlisttbl_t *tbl, qlisttbl_obj_t *obj, const char *name,
     uint32_t hash = (name != NULL) ? qhashmurmur3_32(name, strlen(name)) : 0;
 
     bool ret = false;
+    bool nomem = false;
     while (cont != NULL) {
         if (name == NULL || tbl->namematch(cont, name, hash) == true) {
             if (newmem == true) {
@@ -786,7 +796,7 @@ bool qlisttbl_getnext(qlisttbl_t *tbl, qlisttbl_obj_t *obj, const char *name,
                     if (obj->data != NULL) free(obj->data);
                     obj->name = NULL;
                     obj->data = NULL;
-                    errno = ENOMEM;
+                    nomem = true;
                     break;
                 }
                 memcpy(obj->data, cont->data, cont->size);
@@ -808,7 +818,7 @@ bool qlisttbl_getnext(qlisttbl_t *tbl, qlisttbl_obj_t *obj, const char *name,
     qlisttbl_unlock(tbl);
 
     if (ret == false) {
-        errno = ENOENT;
+        errno = (nomem == true) ? ENOMEM : ENOENT;
     }
 
     return ret;
